@@ -8,7 +8,9 @@ summarised automatically (fixpoint over the call graph, depth-limited).
 """
 from .ir import strip_casts, walk
 
-LOCK_PRIMS = {'pthread_mutex_lock': +1, 'pthread_mutex_unlock': -1}
+LOCK_PRIMS = {'pthread_mutex_lock': +1, 'pthread_mutex_unlock': -1,
+              # acquisitions that may give up (op 0): the lock joins the may set only
+              'pthread_mutex_timedlock': 0, 'pthread_mutex_trylock': 0}
 # pthread_cond_wait releases and re-acquires its mutex: net effect none.
 
 
@@ -54,7 +56,18 @@ class Locksets:
             return [(m, LOCK_PRIMS[ev.callee])]
         s = self.summaries.get(ev.callee)
         if s:
-            return list(s)
+            # a lock named after a parameter of the wrapper is the mutex the caller passes
+            callee = self.P.functions.get(ev.callee) if hasattr(self.P, 'functions') else None
+            params = [q.get('name') if isinstance(q, dict) else q for q in (callee.params if callee is not None else [])]
+            out = []
+            for lock, op in s:
+                if lock in params and params.index(lock) < len(ev.args):
+                    m = _mutex_name(fn, ev.args[params.index(lock)])
+                    if m is None:
+                        continue
+                    lock = m
+                out.append((lock, op))
+            return out
         return []
 
     def analyse(self, fn):
@@ -78,6 +91,9 @@ class Locksets:
             for ev in b.events:
                 states[(b.id, ev.idx)] = (must, may)
                 for lock, op in self._ops_of_event(fn, ev):
+                    if op == 0:
+                        may = _apply(may, lock, +1)
+                        continue
                     must = _apply(must, lock, op)
                     # may: apply to may set, but a release of a lock not in may is a '-L'
                     may = _apply(may, lock, op)
@@ -107,7 +123,14 @@ class Locksets:
                     continue
                 states, ex = self.analyse(fn)
                 must, may = ex
-                if must == may and must:
+                if must != may and may and not must and all(not t.startswith('-') for t in may) \
+                        and any(op == 0 for ev in fn.calls() for _, op in self._ops_of_event(fn, ev)):
+                    # acquires on some returns only: summarised as a may-acquire (op 0)
+                    summ = [(t, 0) for t in sorted(may)]
+                    if self.summaries.get(fn.name) != summ:
+                        self.summaries[fn.name] = summ
+                        changed = True
+                elif must == may and must:
                     summ = []
                     for t in sorted(must):
                         if t.startswith('-'):
